@@ -12,7 +12,7 @@ import LitexModel.Generated.Keywords
         -> `build_signal_namespace` + the `get_name` requests (req >= #sigs addresses an extra object)
     call iskw =<text>      -> 1 / 0      call kwcount -> number of keywords
     call wellformed        -> kwWellformed keywords
-    call noshape <kw:0|1> <base>*   -> noSuffixShapedBase
+    call noshape <base>*   -> noSuffixShapedBase
 -/
 open Litex Litex.Driver Litex.Namer
 
@@ -68,10 +68,9 @@ def call (args : List String) : Option String :=
   | ["iskw", w] => (unq w).map fun s => if s ∈ keywords then "1" else "0"
   | ["kwcount"] => some (toString keywords.length)
   | ["wellformed"] => some (if kwWellformed keywords then "1" else "0")
-  | "noshape" :: flag :: bs => do
-    let kw ← kwOf flag
+  | "noshape" :: bs => do
     let bases ← bs.mapM unq
-    pure (if noSuffixShapedBase kw bases then "1" else "0")
+    pure (if noSuffixShapedBase bases then "1" else "0")
   | _ => none
 
 def main : IO Unit := mainLoop (fun _ _ _ => none) call
